@@ -62,11 +62,13 @@ def successor(L, x, p):
     return norm(L, M + 1, E)
 
 
-def history_decision(R, consts, pmax, qmax, stats, fails, informational):
-    """(a).  F is the raw fixed-point function (nested caches reset before each evaluation)."""
+def history_decision(R, consts, pmax, qmax, stats, fails, informational, plo=1, qlo=1):
+    """(a).  F is the raw fixed-point function (nested caches reset before each evaluation).
+    plo/qlo > 1: the same decision restricted to a WINDOW of precisions plo..pmax and earlier requests qlo..qmax (used to sample
+    the high-precision range, where an inaccurate fixed-point value shows only in requests served from the cache within 5%)"""
     L = R.libmp
     np_ = cache_ops.py_newprec
-    reach = sorted(set(np_(q) for q in range(21, qmax + 21)))
+    reach = sorted(set(np_(q) for q in range(qlo + 20, qmax + 21)))
     for c in consts:
         fx = FIXED[c]
         Fv = {}
@@ -75,7 +77,7 @@ def history_decision(R, consts, pmax, qmax, stats, fails, informational):
             Fv[P] = int(R.w[fx].f(P))
         R.reset_all()
         unstable = 0
-        for p in range(1, pmax + 1):
+        for p in range(plo, pmax + 1):
             wp = p + 20
             groups = {}
             for P in reach:
@@ -96,8 +98,8 @@ def history_decision(R, consts, pmax, qmax, stats, fails, informational):
                         outs.setdefault(R.le.def_mpf_constant(lambda w_, v=v: v)(p, rnd), []).append(g[0])
                     if len(outs) > 1:
                         (a, Pa), (b, Pb) = [(k, g[0]) for k, g in outs.items()][:2]
-                        qa = min(q for q in range(21, qmax + 21) if np_(q) == Pa) - 20
-                        qb = min(q for q in range(21, qmax + 21) if np_(q) == Pb) - 20
+                        qa = min(q for q in range(qlo + 20, qmax + 21) if np_(q) == Pa) - 20
+                        qb = min(q for q in range(qlo + 20, qmax + 21) if np_(q) == Pb) - 20
                         fails.append({"site": site(R, c, "history"),
                                       "what": "mpf_%s(%d, %r) depends on the earlier requests (memo precision %d vs %d)" % (c, p, rnd, Pa, Pb),
                                       "input": {"kind": "history", "const": c, "prec": p, "rnd": rnd,
